@@ -139,6 +139,18 @@ def save_setup(interp, path):
             "max_value": z3.Real(fresh_name("max_value")) if case["maxv"] else None}
 
 
+def _card_equals(m, got, given):
+    """the header card holds exactly the given (real) value — whatever representation the code computed it in"""
+    from pyvc.core import z3num
+    if isinstance(got, FPix):
+        return ops.conj([ops.negate(got.nan), simp(z3num(got.val) == z3num(given))])
+    if isinstance(got, ops.OptionalVal):
+        return ops.conj([got.present, _card_equals(m, got.value, given)])
+    if got is None:
+        return False
+    return ops.equals(m, got, given)
+
+
 def save_trace(m, path, fr, env, outcome, value, exc):
     if outcome != "return":
         path.oblige(m.oblname("returns_normally"), z3.BoolVal(False), kind="trace", assume_after=False)
@@ -156,7 +168,7 @@ def save_trace(m, path, fr, env, outcome, value, exc):
     for card, given, N, V in (("DATAMIN", fr.entry_env.lookup("min_value"), NanMinN, NanMinV),
                               ("DATAMAX", fr.entry_env.lookup("max_value"), NanMaxN, NanMaxV)):
         if given is not None:
-            g = z3.BoolVal(card in hdr) if card not in hdr else ops.equals(m, hdr[card], given)
+            g = z3.BoolVal(card in hdr) if card not in hdr else _card_equals(m, hdr[card], given)
             path.oblige(m.oblname("explicit_range_goes_into_%s" % card), g if not isinstance(g, bool) else z3.BoolVal(g), kind="trace", assume_after=False)
         elif card in hdr:
             v = hdr[card]
